@@ -323,6 +323,8 @@ let run_case (line : string) : string =
         | M.Val ((M.Ok _, rest) as x) -> go rest (k - 1) (print_mres x :: acc)
         | other -> String.concat " | " (List.rev (outcome print_mres other :: acc)) in
     go (bytes_of_hex (arg 2)) 64 []
+  | "DECS" -> ocaml_string (M.ch_dec_seam (n_of_dec (arg 1)) (opts_of (arg 2)) (bytes_of_hex (arg 3)))
+  | "AVPSS" -> ocaml_string (M.ch_avps_seam (n_of_dec (arg 1)) (bytes_of_hex (arg 2)))
   | "DECL" -> ocaml_string (M.ch_dec_lim (n_of_dec (arg 1)) (opts_of (arg 2)) (bytes_of_hex (arg 3)))
   | "AVPSL" -> ocaml_string (M.ch_avps_lim (n_of_dec (arg 1)) (bytes_of_hex (arg 2)))
   | "AVPS" -> ocaml_string (M.ch_avps (bytes_of_hex (arg 1)))
